@@ -36,6 +36,13 @@ def _key(i):
     return KEYS[i]
 
 
+def _same_value(a, b):
+    try:
+        return a == b or (a != a and b != b)
+    except Exception:
+        return False
+
+
 class Sim:
     def __init__(self, base, alpha, family):
         from ixai.utils.tracker import MultiValueTracker, WelfordTracker, ExponentialSmoothingTracker
@@ -81,11 +88,11 @@ class Sim:
             return 'C12:update-mutates-argument', 'update() modified the dictionary it was given'
         if self.t.N != self.n:
             return 'C12:N', f'N={self.t.N} after {self.n} update calls'
-        got = self.t.get()
+        got = dict(self.t.get())       # a copy by value: what get() reported at this moment
         want = self.model.get()
         if set(got) != set(want) or len(got) != len(want):
             return 'C12:keys', f'keys {sorted(map(repr, got))} but keys ever seen are {sorted(map(repr, want))}'
-        if self.t() != got:
+        if dict(self.t()) != got:
             return 'C12:call-vs-get', '__call__ and get() disagree'
         tol = 16 * self.n * self.eps * (self.maxabs + 1e-300)
         for k in want:
@@ -97,7 +104,23 @@ class Sim:
                 gf = float(g)
                 if not math.isfinite(gf) or abs(gf - float(want[k])) > tol:
                     return 'C12:value', f'key {k!r}: {gf!r} vs closed form {float(want[k])!r} (tol {tol:g})'
-        return self.check_normalized(got)
+        err = self.check_normalized(got)
+        if err:
+            return err
+        # read-only accessors must stay read-only: get() after get_normalized() still reports the base statistics, and a caller
+        # editing a dictionary it was handed must not reach the tracker's state
+        again = self.t.get()
+        if set(again) != set(got) or any(not _same_value(again[k], got[k]) for k in got):
+            return 'C12:get-after-normalized', f'get() returns {again!r} after get_normalized(); before it was {got!r}'
+        for d_ in (again, self.t.get_normalized()):
+            if d_:
+                k0 = next(iter(d_))
+                d_[k0] = 987654321
+                d_.pop(k0)
+        final = self.t.get()
+        if set(final) != set(got) or any(not _same_value(final[k], got[k]) for k in got):
+            return 'C12:returned-dict-aliases-state', f'after the caller edited returned dictionaries get() reports {final!r} instead of {got!r}'
+        return None
 
     def check_normalized(self, raw):
         norm = self.t.get_normalized()
